@@ -6,12 +6,14 @@ import (
 	"encoding/json"
 	"fmt"
 	"os"
+	"os/exec"
 	"path/filepath"
 	"runtime"
 	"sort"
 	"strings"
 	"sync"
 	"time"
+	"verif/goosegen"
 
 	goose "github.com/goose-lang/goose"
 
@@ -22,6 +24,41 @@ import (
 func init() {
 	Registry["C06"] = C06
 	children["race-translate"] = raceTranslateChild
+	c06Pkgs["failcat"] = map[string]string{"c.go": c06FailCat()}
+}
+
+// c06FailCat: one package holding every catalogue construct the pinned translator rejects (and the far-outside ones):
+// its error list exercises every error path and every way an error message renders Go syntax.
+func c06FailCat() string {
+	var body strings.Builder
+	var std []string
+	usesMachine := false
+	n := 9000
+	add := func(it goosegen.Item) {
+		n++
+		decls, _ := it.Instantiate(n, fmt.Sprintf("fcentry%d", n))
+		if strings.Contains(decls, "machine.") {
+			usesMachine = true
+		}
+		std = append(std, goosegen.Item{Decls: decls}.Imports()...)
+		body.WriteString(decls + "\n")
+	}
+	for _, it := range goosegen.Catalogue {
+		if goosegen.RejectedAtPin[it.Key] && !strings.HasPrefix(it.Key, "lookalike.") && it.Key != "init.func" {
+			add(it)
+		}
+	}
+	for _, it := range goosegen.FarOutside {
+		add(it)
+	}
+	// un-keyed struct literals whose elements are not plain identifiers
+	body.WriteString("type fcPair struct {\n\tA uint64\n\tB uint64\n}\n\nfunc fcLit(x uint64) fcPair {\n\treturn fcPair{uint64(1) + x, x}\n}\n\nfunc fcLit2(x uint64) fcPair {\n\treturn fcPair{fcLit(x).A, []uint64{x}[0]}\n}\n")
+	src := "package gen\n\n"
+	if usesMachine {
+		src += "import \"github.com/goose-lang/goose/machine\"\n\n"
+	}
+	src = goosegen.AddImports(src+body.String(), std)
+	return strings.Replace(src, "package gen\n", "package failcat\n", 1)
 }
 
 const c06Mod = "example.com/c06mod"
@@ -37,7 +74,11 @@ var c06Pkgs = map[string]map[string]string{
 		"z.go": "package failmulti\n\nfunc BadZ(x uint64) uint64 {\n\tx <<= 3\n\treturn x\n}\n\nfunc Z1() uint64 {\n\treturn M1() + 1\n}\n"},
 	"plain":   {"pv.go": "package plain\n\nfunc MaxOf(first uint64, rest ...uint64) uint64 {\n\tvar m uint64 = first\n\tfor _, x := range rest {\n\t\tif x > m {\n\t\t\tm = x\n\t\t}\n\t}\n\treturn m\n}\n", "p.go": "package plain\n\n// Twice doubles\nfunc Twice(x uint64) uint64 {\n\treturn x + x\n}\n"},
 	"usedisk": {"d.go": "package usedisk\n\nimport \"github.com/goose-lang/goose/machine/disk\"\n\nfunc Sz() uint64 {\n\treturn disk.BlockSize\n}\n"},
-	"multi":   {"m1.go": "package multi\n\nfunc M1() uint64 {\n\treturn M2() + 1\n}\n", "m2.go": "package multi\n\nfunc M2() uint64 {\n\treturn 2\n}\n"},
+	// a library on top of the disk FFI and two packages that reach the FFI only through it
+	"store": {"s.go": "package store\n\nimport \"github.com/goose-lang/goose/machine/disk\"\n\nfunc Cap() uint64 {\n\treturn disk.BlockSize\n}\n"},
+	"alpha": {"a.go": "package alpha\n\nimport \"example.com/c06mod/store\"\n\nfunc A() uint64 {\n\treturn store.Cap() + 1\n}\n"},
+	"beta":  {"b.go": "package beta\n\nimport \"example.com/c06mod/store\"\n\nfunc B() uint64 {\n\treturn store.Cap() + 2\n}\n"},
+	"multi": {"m1.go": "package multi\n\nfunc M1() uint64 {\n\treturn M2() + 1\n}\n", "m2.go": "package multi\n\nfunc M2() uint64 {\n\treturn 2\n}\n"},
 }
 
 func c06Module(c *ev.Ctx, root string) error {
@@ -188,7 +229,7 @@ func C06(c *ev.Ctx) {
 	}
 	runtime.GOMAXPROCS(oldProcs)
 	// forced worker schedules on three packages that share types / forward references
-	triples := [][]string{{"geom", "usegeom", "forward"}, {"usegeom", "geom", "failing"}}
+	triples := [][]string{{"geom", "usegeom", "forward"}, {"usegeom", "geom", "failing"}, {"store", "alpha", "beta"}, {"beta", "usedisk", "alpha"}}
 	forced := 0
 	for ti, tri := range triples {
 		step := c.Pick(6, 1)
@@ -357,7 +398,7 @@ func c06CLI(c *ev.Ctx, root string, names []string, aloneHash map[string]string)
 	_ = os.RemoveAll(fresh)
 	var pats []string
 	for _, p := range names {
-		if p != "failing" && p != "failmulti" {
+		if !strings.HasPrefix(p, "fail") {
 			pats = append(pats, "./"+p)
 		}
 	}
@@ -427,7 +468,7 @@ func c06CLI(c *ev.Ctx, root string, names []string, aloneHash map[string]string)
 	// the failing patterns stand in the invocation (exit status 1 is the failing packages' business)
 	for k, withBad := range [][]string{
 		append([]string{"./failing"}, pats...),
-		append(append([]string{}, pats...), "./failmulti"),
+		append(append([]string{}, pats...), "./failmulti", "./failcat"),
 		append(append(append([]string{}, pats[:len(pats)/2]...), "./failing", "./failmulti"), pats[len(pats)/2:]...),
 	} {
 		out := filepath.Join(c.Scratch, "c06cli-bad")
@@ -439,6 +480,39 @@ func c06CLI(c *ev.Ctx, root string, names []string, aloneHash map[string]string)
 		key = "c06.output-depends-on-co-translated-failure"
 		compare(out, fmt.Sprintf("an invocation that also names failing packages (variant %d: %v)", k, withBad))
 		key = "c06.output-depends-on-prior-state"
+	}
+	// a slow Go toolchain (cold build cache, loaded machine): every `go list` takes 12 s longer; same files, same status
+	if realGo, err := exec.LookPath("go"); err == nil {
+		wrap := filepath.Join(c.Scratch, "c06slowgo")
+		_ = os.MkdirAll(wrap, 0755)
+		_ = os.WriteFile(filepath.Join(wrap, "go"), []byte("#!/bin/sh\ncase \"$1\" in list) sleep 12;; esac\nexec "+realGo+" \"$@\"\n"), 0755)
+		out := filepath.Join(c.Scratch, "c06cli-slow")
+		_ = os.RemoveAll(out)
+		cmd := execCommand(filepath.Join(c.Bin, "goose"), "-out", out, "-dir", root, "./plain", "./usedisk")
+		cmd.Env = append(goEnv(), "PATH="+wrap+":"+os.Getenv("PATH"))
+		t0 := time.Now()
+		b, err := cmd.CombinedOutput()
+		took := time.Since(t0)
+		runs++
+		bad := ""
+		if err != nil {
+			bad = fmt.Sprintf("goose fails (%v): %s", err, firstLines(string(b), 4))
+		} else {
+			for rel, want := range ref {
+				if pk := strings.TrimSuffix(filepath.Base(rel), ".v"); pk == "plain" || pk == "usedisk" {
+					if got, err := os.ReadFile(filepath.Join(out, rel)); err != nil || !bytes.Equal(got, want) {
+						bad = fmt.Sprintf("file %s differs from an ordinary run (%d vs %d bytes)", rel, len(got), len(want))
+					}
+				}
+			}
+		}
+		if took < 12*time.Second {
+			c.Set("slow_toolchain_run", "the wrapper was not used (run took "+took.String()+")")
+		} else if bad != "" {
+			c.Violation("c06.output-depends-on-toolchain-speed", "same sources, same patterns, but the Go toolchain answers 12 s later than usual: "+bad, map[string]string{"output.txt": string(b)})
+		} else {
+			c.Set("slow_toolchain_run", "identical files after "+took.Round(time.Second).String())
+		}
 	}
 	// earlier versions of the sources: a trailing declaration more, then removed again (the new output is a prefix of
 	// the old one for packages with an FFI prelude, whose footer is empty)
